@@ -20,6 +20,12 @@ def refactor(vid, prop, rel, old, new, note=""):
     _v(vid, prop, "refactor", None, [(rel, old, new)], note)
 
 
+def rename(vid, prop, pairs, note=""):
+    """Behaviour-preserving rename of private identifiers: pairs of
+    (file, old identifier, new identifier), every whole-word occurrence."""
+    _v(vid, prop, "refactor", None, [(rel, old, new, "all") for rel, old, new in pairs], note)
+
+
 OP = "job_shop_lib/_operation.py"
 SOP = "job_shop_lib/_scheduled_operation.py"
 SCH = "job_shop_lib/_schedule.py"
@@ -1023,3 +1029,28 @@ mutant("c09-falsy-machine", "C09", "R09.e", DISP,
        "machine 0 treated as 'not given'")
 mutant("c09-falsy-job-in-env", "C09", "R09.f", ENV1,
        "        operation = self.dispatcher.next_operation(job_id)", "        operation = self.dispatcher.next_operation(job_id if job_id else 0)")
+
+
+# ------------------------------------------------------------------ renames of private names
+# (anchors are found by role, not by private name)
+_ORT = "job_shop_lib/constraint_programming/_ortools_solver.py"
+rename("c03-r-rename-private", "C03", [
+    (_ORT, "_operations_start", "_vars"), (_ORT, "_makespan", "_objective_var"),
+    (_ORT, "_create_schedule", "_rebuild_schedule"), (_ORT, "_initialize_model", "_fresh_model"),
+    (_ORT, "_create_variables", "_make_vars"), (_ORT, "_add_constraints", "_constrain"),
+    (_ORT, "_set_objective", "_objective"),
+])
+rename("c18-r-rename-private", "C18", [
+    (ENV1, "_get_observation_space", "_build_observation_space"), (ENV1, "_get_edge_index", "_edge_index_array"),
+    (ENVM, "_add_padding_to_observation", "_pad_observation"),
+])
+rename("c19-r-rename-private", "C19", [
+    (IGEN, "_counter", "_names_issued"), (IGEN, "_current_iteration", "_yielded"), (IGEN, "_iteration_limit", "_max_instances"),
+    (IGEN, "_next_name", "_fresh_name"), (GEN, "_next_name", "_fresh_name"),
+    (GEN, "_choose_one_machine", "_pick_machine"), (GEN, "_choose_multiple_machines", "_pick_machines"),
+])
+rename("c20-r-rename-private", "C20", [
+    (GIF, "_save_frame", "_write_frame"), (GIF, "_load_images", "_read_frames"), (GIF, "_frame_number", "_index_of"),
+    (PGC, "_plot_machine_schedules", "_draw_machines"), (PGC, "_plot_scheduled_operation", "_draw_bar"),
+    (PGC, "_configure_axes", "_setup_axes"), (PGC, "_configure_legend", "_setup_legend"), (PGC, "_get_job_label", "_label_of"),
+])
